@@ -6,10 +6,12 @@ import (
 	"fmt"
 	"os"
 	"sort"
+	"strings"
 	"time"
 
 	"github.com/lidofinance/dc4bc/client/api/dto"
 	"github.com/lidofinance/dc4bc/client/modules/state"
+	"github.com/lidofinance/dc4bc/client/types"
 	"github.com/lidofinance/dc4bc/fsm/types/requests"
 	"github.com/lidofinance/dc4bc/storage"
 	"github.com/lidofinance/dc4bc/storage/file_storage"
@@ -115,10 +117,26 @@ func freshSnapshot(lab *Lab) world.Snapshot {
 }
 
 // junkify inserts duplicated, badly signed and foreign-round messages into a log.
-func junkify(rec *world.Recording, L []storage.Message) []storage.Message {
+func junkify(rec *world.Recording, L []storage.Message, foreignReinit bool) []storage.Message {
 	var out []storage.Message
 	for i, m := range L {
 		out = append(out, m)
+		if foreignReinit && i == 1 {
+			// an (unauthenticated, by design) reinitialisation message of ANOTHER, fresh round: it
+			// switches signature verification off while it is handled - afterwards the badly
+			// signed messages below must be refused exactly as before, restart or not
+			var parts []types.Participant
+			for pi, nd := range rec.W.Nodes {
+				parts = append(parts, types.Participant{DKGPubKey: rec.W.Airs[pi].PubKeyBytes(), OldCommPubKey: nd.KeyPair.Pub, NewCommPubKey: nd.KeyPair.Pub, Name: nd.Name})
+			}
+			fresh := strings.Repeat("cd", 16)
+			re := types.ReDKG{DKGID: fresh, Threshold: rec.W.T, Participants: parts}
+			out = append(out, storage.Message{DkgRoundID: fresh, Event: string(types.ReinitDKG), Data: world.MustJSON(re), SenderAddr: rec.W.Nodes[1].Name})
+			// ... such as this decline in the last participant's name, signed with another key
+			last := len(rec.W.Nodes) - 1
+			decl := requests.SignatureProposalParticipantRequest{ParticipantId: last, CreatedAt: world.T0}
+			out = append(out, world.SignedMessage(rec.Round, "event_sig_proposal_decline_by_participant", world.MustJSON(decl), rec.W.Nodes[last].Name, rec.W.Nodes[0].KeyPair.Priv, ""))
+		}
 		switch i % 4 {
 		case 1:
 			out = append(out, m) // byte-identical duplicate
@@ -167,7 +185,7 @@ func c08(tier string, args []string) int {
 	if tier == "thorough" {
 		views = []int{0, 1, 2}
 	}
-	logs := map[string][]storage.Message{"honest": rec.Log, "with-junk": junkify(rec, rec.Log)}
+	logs := map[string][]storage.Message{"honest": rec.Log, "with-junk": junkify(rec, rec.Log, true)}
 
 	// ---- (a) nodes that consumed the same prefix agree on everything public
 	totalDeals := 0
